@@ -30,7 +30,8 @@ pub enum AStep {
     Reset { d0: u64, d1: u64, poll_first: bool },
     /// behaviour: 0 burst, 1 delay, 2 skip; after each tick the task sleeps `work`; `off` > 0 = interval_at(now + off, ..)
     /// `work` is slept after every tick, or (`once`) only after the first one: the remaining ticks then catch up in one poll
-    Interval { period: u64, behaviour: u8, ticks: u8, work: u64, #[serde(default)] off: u64, #[serde(default)] once: bool },
+    /// `back`: the interval is created with `interval_at(now - back, period)`, i.e. with a first deadline in the past
+    Interval { period: u64, behaviour: u8, ticks: u8, work: u64, #[serde(default)] off: u64, #[serde(default)] once: bool, #[serde(default)] back: u64 },
     /// wake task `to` of the same module
     Notify { to: u16 },
     /// wait for one notification
@@ -131,11 +132,36 @@ impl<F: Future> Future for Counted<F> {
 // the harness is single threaded; tokio::spawn needs Send
 unsafe impl<F> Send for Counted<F> {}
 
-struct SendToken(#[allow(dead_code)] Token);
+struct SendToken(#[allow(dead_code)] Token, #[allow(dead_code)] Option<Lease>);
 unsafe impl Send for SendToken {}
+
+/// State captured by a task that "gives something back" when it is dropped: its destructor looks its module up in the
+/// global view of the simulation, if that still exists (whenever the task ends: completion, shutdown of its module, or
+/// the drop of the whole simulation)
+struct Lease {
+    globals: std::sync::Weak<des::net::Globals>,
+    path: String,
+}
+impl Drop for Lease {
+    fn drop(&mut self) {
+        if let Some(g) = self.globals.upgrade() {
+            let _ = g.get(&des::net::ObjectPath::from(self.path.as_str()));
+        }
+    }
+}
 
 fn now_ns() -> u64 {
     SimTime::now().as_nanos() as u64
+}
+
+/// the three largest values stand for durations at the edge of the type: Duration::MAX, u64::MAX seconds, Duration::MAX - 1 ns
+fn huge_duration(d: u64) -> Duration {
+    match d {
+        u64::MAX => Duration::MAX,
+        x if x == u64::MAX - 1 => Duration::from_secs(u64::MAX),
+        x if x == u64::MAX - 2 => Duration::MAX - Duration::from_nanos(1),
+        x => Duration::from_nanos(x),
+    }
 }
 
 async fn run_task(m: usize, ti: usize, inc: u16, start_ns: u64, spec: TaskSpec, inbox: mpsc::UnboundedReceiver<()>, outs: Vec<mpsc::UnboundedSender<()>>, _token: SendToken) {
@@ -152,8 +178,8 @@ async fn run_task(m: usize, ti: usize, inc: u16, start_ns: u64, spec: TaskSpec, 
                 log(si, T_DONE, 0);
             }
             AStep::Timeout { d, inner, d2, at } => {
-                let dur = Duration::from_nanos(*d);
-                let ok = if *at {
+                let dur = huge_duration(*d);
+                let ok = if *at && *d < u64::MAX - 2 {
                     let dl = SimTime::now() + dur;
                     match inner % 3 {
                         0 => des::time::timeout_at(dl, sleep(Duration::from_nanos(*d2))).await.is_ok(),
@@ -203,8 +229,11 @@ async fn run_task(m: usize, ti: usize, inc: u16, start_ns: u64, spec: TaskSpec, 
                 s.await;
                 log(si, T_DONE, 0);
             }
-            AStep::Interval { period, behaviour, ticks, work, off, once } => {
-                let mut iv = if *off > 0 {
+            AStep::Interval { period, behaviour, ticks, work, off, once, back } => {
+                let now = SimTime::now();
+                let mut iv = if *back > 0 && now.as_nanos() >= u128::from(*back) {
+                    des::time::interval_at(SimTime::from_duration(*now - Duration::from_nanos(*back)), Duration::from_nanos((*period).max(1)))
+                } else if *off > 0 {
                     des::time::interval_at(SimTime::now() + Duration::from_nanos(*off), Duration::from_nanos((*period).max(1)))
                 } else {
                     interval(Duration::from_nanos((*period).max(1)))
@@ -290,7 +319,8 @@ pub fn spawn_tasks(m: usize, inc: u16, prog: &Rc<NetProgram>) {
         i.borrow_mut().insert(m, txs.clone());
     });
     for (ti, (spec, rx)) in specs.into_iter().zip(rxs.into_iter()).enumerate().take(6000) {
-        let fut = Counted { m, inner: Box::pin(run_task(m, ti, inc, start, spec.clone(), rx, txs.clone(), SendToken(Token::task()))) };
+        let lease = if prog.leases { Some(Lease { globals: std::sync::Arc::downgrade(&des::net::globals()), path: crate::net::module_path(prog, m) }) } else { None };
+        let fut = Counted { m, inner: Box::pin(run_task(m, ti, inc, start, spec.clone(), rx, txs.clone(), SendToken(Token::task(), lease))) };
         let handle = if spec.local { tokio::task::spawn_local(fut) } else { tokio::spawn(fut) };
         match spec.join {
             1 => current().join(handle),
@@ -417,6 +447,8 @@ pub fn evaluate(tasks: &[TaskSpec], start: u64, ext: &[(u64, usize)]) -> Vec<Exp
                                 1 => (0, T_OK),
                                 _ => (d, T_ELAPSED),
                             };
+                            // (a time-out at the edge of the duration type never elapses)
+                            let dt = if dt >= u64::MAX - 2 { u64::MAX / 4 } else { dt };
                             if s.sub == 0 && dt > 0 {
                                 s.sub = 1;
                                 s.wake = Some(now + dt);
@@ -449,11 +481,12 @@ pub fn evaluate(tasks: &[TaskSpec], start: u64, ext: &[(u64, usize)]) -> Vec<Exp
                                 s.pc += 1;
                             }
                         }
-                        AStep::Interval { period, behaviour, ticks, work, off, once } => {
+                        AStep::Interval { period, behaviour, ticks, work, off, once, back } => {
                             let period = period.max(1);
                             // sub: 0 = not created; 1 + 2k = waiting for tick k; 2 + 2k = working after tick k
                             if s.sub == 0 {
-                                s.iv_deadline = now + off; // created now: the first tick is due immediately (or at now + off)
+                                // created now: the first tick is due immediately, at now + off, or was due at now - back
+                                s.iv_deadline = if back > 0 && now >= back { now - back } else { now + off };
                                 s.sub = 1;
                             }
                             let k = (s.sub - 1) / 2;
@@ -770,6 +803,7 @@ fn gen_timer_step(rng: &mut Rng) -> AStep {
         }
         0 | 1 => AStep::Sleep { d: d(rng) },
         2 => AStep::SleepUntil { at: d(rng) * rng.below(4) },
+        3 | 4 if rng.chance(1, 12) => AStep::Timeout { d: u64::MAX - rng.below(3), inner: rng.below(2) as u8, d2: d(rng), at: false },
         3 | 4 => AStep::Timeout { d: d(rng), inner: rng.below(3) as u8, d2: d(rng), at: rng.chance(1, 3) },
         5 | 6 => {
             let n = 2 + rng.below(2) as usize;
@@ -787,7 +821,7 @@ fn gen_timer_step(rng: &mut Rng) -> AStep {
                 4 => period + period / 2, // late by half a period
                 _ => 3 * period + 10 * MS,
             };
-            AStep::Interval { period, behaviour: rng.below(3) as u8, ticks: 1 + rng.below(5) as u8, work, off: if rng.chance(1, 3) { 10 * MS * (1 + rng.below(7)) } else { 0 }, once: false }
+            AStep::Interval { period, behaviour: rng.below(3) as u8, ticks: 1 + rng.below(5) as u8, work, off: if rng.chance(1, 3) { 10 * MS * (1 + rng.below(7)) } else { 0 }, once: false, back: if rng.chance(1, 6) { 10 * MS * (1 + rng.below(30)) } else { 0 } }
         }
     }
 }
@@ -851,7 +885,7 @@ pub fn gen_c06(rng: &mut Rng, tier: Tier) -> NetProgram {
             // an interval that fell far behind catches up: all missed ticks complete in the instant the task comes back
             let n = if rng.chance(1, 2) { 130 + rng.below(120) as u8 } else { 2 + rng.below(100) as u8 };
             let period = MS * (1 + rng.below(20));
-            spec.tasks.push(TaskSpec { local, join: 1, steps: vec![AStep::Interval { period, behaviour: 0, ticks: n, work: period * (u64::from(n) + 5 + rng.below(50)), off: 0, once: true }, AStep::Sleep { d: MS }] });
+            spec.tasks.push(TaskSpec { local, join: 1, steps: vec![AStep::Interval { period, behaviour: 0, ticks: n, work: period * (u64::from(n) + 5 + rng.below(50)), off: 0, once: true, back: 0 }, AStep::Sleep { d: MS }] });
             for _ in 0..rng.small(5) {
                 spec.tasks.push(TaskSpec { local, join: 0, steps: vec![AStep::Sleep { d: 10 * MS }] });
             }
@@ -974,7 +1008,7 @@ pub fn gen_tasks_c09(rng: &mut Rng) -> Vec<TaskSpec> {
         let ns = 2 + rng.small(8) as usize;
         let mut steps: Vec<AStep> = (0..ns)
             .map(|_| match rng.below(4) {
-                0 => AStep::Interval { period: 100 * MS * (1 + rng.below(3)), behaviour: 0, ticks: 2 + rng.below(4) as u8, work: 0, off: 0, once: false },
+                0 => AStep::Interval { period: 100 * MS * (1 + rng.below(3)), behaviour: 0, ticks: 2 + rng.below(4) as u8, work: 0, off: 0, once: false, back: 0 },
                 _ => AStep::Sleep { d: 250 * MS * (1 + rng.below(4)) },
             })
             .collect();
